@@ -401,8 +401,78 @@ type Stats struct {
 // Explore enumerates every schedule of body within the bounds, calling check on
 // each execution. It returns when the space is exhausted or MaxExecutions is hit.
 func Explore(body func(), opt Options, check func(r Result) bool) Stats {
+	return ExploreShard(body, opt, 0, 1, check)
+}
+
+// children returns the choice prefixes of the subtrees below an execution that
+// deviate from it at a position >= from, within the bounds.
+func children(r Result, from int, opt Options) [][]int {
+	var out [][]int
+	pre, env := 0, 0
+	for i, p := range r.kinds {
+		if i >= from {
+			for alt := 1; alt < p.n; alt++ {
+				np, ne := pre, env
+				if p.kind == KindEnv {
+					ne++
+				} else if p.runningHere {
+					np++
+				}
+				if opt.PreemptionBound >= 0 && np > opt.PreemptionBound {
+					continue
+				}
+				if opt.EnvBound >= 0 && ne > opt.EnvBound {
+					continue
+				}
+				out = append(out, append(append([]int{}, r.Choices[:i]...), alt))
+			}
+		}
+		if p.chosen != 0 {
+			if p.kind == KindEnv {
+				env++
+			} else if p.runningHere {
+				pre++
+			}
+		}
+	}
+	return out
+}
+
+// ExploreShard explores the shard-th of nshards parts of the schedule tree: the
+// tree is expanded breadth-first until it has at least 4*nshards subtrees (those
+// inner executions are checked by shard 0 only), which are then dealt round-robin;
+// the union over all shards is exactly the space Explore covers.
+func ExploreShard(body func(), opt Options, shard, nshards int, check func(r Result) bool) Stats {
 	st := Stats{ByPreempt: map[int]int{}, DistinctObs: map[string]int{}}
 	stop := false
+	note := func(r Result) bool {
+		st.Executions++
+		st.ByPreempt[r.Preemptions]++
+		if r.Points > st.MaxPoints {
+			st.MaxPoints = r.Points
+		}
+		if r.Deadlock {
+			st.Deadlocks++
+		}
+		st.DistinctObs[strings.Join(r.Obs, "|")]++
+		return check(r)
+	}
+	work := [][]int{nil}
+	if nshards > 1 {
+		for level := 0; level < 4 && len(work) < 4*nshards && len(work) > 0; level++ {
+			var next [][]int
+			for _, p := range work {
+				r := RunOnce(body, p, opt)
+				if shard == 0 {
+					if !note(r) {
+						return st
+					}
+				}
+				next = append(next, children(r, len(p), opt)...)
+			}
+			work = next
+		}
+	}
 	var rec func(prefix []int)
 	rec = func(prefix []int) {
 		if stop {
@@ -414,53 +484,22 @@ func Explore(body func(), opt Options, check func(r Result) bool) Stats {
 			return
 		}
 		r := RunOnce(body, prefix, opt)
-		st.Executions++
-		st.ByPreempt[r.Preemptions]++
-		if r.Points > st.MaxPoints {
-			st.MaxPoints = r.Points
-		}
-		if r.Deadlock {
-			st.Deadlocks++
-		}
-		st.DistinctObs[strings.Join(r.Obs, "|")]++
-		if !check(r) {
+		if !note(r) {
 			stop = true
 			return
 		}
-		// cost of the choices before position i
-		pre, env := 0, 0
-		for i, p := range r.kinds {
-			if i >= len(prefix) {
-				for alt := 1; alt < p.n; alt++ {
-					np, ne := pre, env
-					if p.kind == KindEnv {
-						ne++
-					} else if p.runningHere {
-						np++
-					}
-					if opt.PreemptionBound >= 0 && np > opt.PreemptionBound {
-						continue
-					}
-					if opt.EnvBound >= 0 && ne > opt.EnvBound {
-						continue
-					}
-					next := append(append([]int{}, r.Choices[:i]...), alt)
-					rec(next)
-					if stop {
-						return
-					}
-				}
-			}
-			if p.chosen != 0 {
-				if p.kind == KindEnv {
-					env++
-				} else if p.runningHere {
-					pre++
-				}
+		for _, next := range children(r, len(prefix), opt) {
+			rec(next)
+			if stop {
+				return
 			}
 		}
 	}
-	rec(nil)
+	for j, p := range work {
+		if j%nshards == shard {
+			rec(p)
+		}
+	}
 	return st
 }
 
